@@ -790,7 +790,9 @@ impl SvgElement {
             height = Some(strp(h)?);
         }
         match self.name.as_str() {
-            "use" | "reuse" => {
+            // (a size already worked out for the instance - see ReuseElement - stands:
+            // the target as written may depend on variables the reuse element sets)
+            "use" | "reuse" if width.is_none() || height.is_none() => {
                 let target_el = self.get_target_element(ctx)?;
                 // Take a _copy_ of the target element and evaluate attributes
                 // (should really only evaluate those which contribute to size...)
